@@ -174,7 +174,7 @@ pub(crate) fn days_to_doy(days: i32) -> u32 {
 
 /// Converts days to day of week
 pub(crate) fn days_to_wday(days: i32, monday_first: bool) -> u32 {
-    (days.unsigned_abs() % 7 + if monday_first { 0 } else { 1 }) % 7
+    (days.rem_euclid(7) as u32 + if monday_first { 0 } else { 1 }) % 7
 }
 
 /// Get a list of specific weekdays in a month
